@@ -12,6 +12,9 @@ def rich_value(rng, depth):
             ks += rng.sample([I(1), B(True), N, I(0), B(False), I(2**63), I(-7)], rng.randint(1, 3))
         if rng.random() < 0.05:
             ks.append(L(I(1)))            # unhashable in Python
+        if rng.random() < 0.12:
+            # keys written with so many markers that one is left in the rendered key
+            ks.append(S(rng.choice(['=====pinned', '~~~~~tilde', '=~=~=mix', '======six', '~=~=~=~w'])))
         seen, es = set(), []
         for k in ks:
             if repr(k) in seen:
